@@ -166,6 +166,16 @@ func (ex *Exec) call(f *Frame, st *State, x *ssa.Call, b *ssa.BasicBlock, i int,
 			inlSweep = con.Sweep
 		} else if con == nil && !ex.prog.CS.isPure(name) && ex.inModule(callee) && len(ex.prog.loopInfo(callee).headers) == 0 && instrCount(callee) <= 60 && f.depth < 3 {
 			wantInline = true
+			// a helper without a contract is part of its caller: the caller's
+			// safety sweep extends into it (in the caller's context), except the
+			// nil obligations: a helper's receiver and captured variables reach it
+			// through memory cells, which says nothing about wire-decoded nils
+			inlSweep = map[string]bool{}
+			for k, v := range f.sweep {
+				if k != "nilmem" {
+					inlSweep[k] = v
+				}
+			}
 		}
 	}
 	if con != nil && !con.Inline {
